@@ -522,6 +522,10 @@ func (h *harness) replayOne(s string) {
 		h.replayC11(s)
 		return
 	}
+	if cfg, ok := parseLenCfg(s); ok {
+		h.runLenSources([]lenCfg{cfg})
+		return
+	}
 	if cfg, ok := parseShared(s); ok {
 		// only the interleaving of real goroutines varies: repeat until the violation shows again
 		for k := 0; k < 5 && len(h.res.Violations) == 0; k++ {
